@@ -178,6 +178,19 @@ CLAIMED["C17"] = dict(
     note="trusted: token-level source scan for statics / thread_local / lazy / atomics / rng; concurrent runs are testing, not proof",
     technique="regenerated ambient-state inventory checked in Coq + definitional purity of the model + sequential/concurrent differential runs")
 
+CLAIMED["C02"] = dict(
+    category="proof",
+    text="Coq theorems C02_parse_sound, C02_parse_complete, C02_parse_ok_iff_wf: for every byte string, the parser model accepts p if and only if "
+         "wf_packet p, a declarative statement of the policy (inductive name relation with strictly-backward pointers, <= 16 hops, <= 255 "
+         "bytes, label charset; per-type rdata rules; single root-named OPT in the additional section with options tiling its data; QR gating; "
+         "one question of class IN; nothing left over) written without reference to the parser's control flow; C02_name_policy gives the same "
+         "equivalence for the two public name checkers. Unbounded, closed under the global context. Tie: the verdict of the implementation is "
+         "compared on ~12k generated packets per run (clause-by-clause boundaries) with the model and, in both directions, with an independent "
+         "Python recogniser of the same policy.",
+    ref="6/C02",
+    note="trusted: as C01; the Python recogniser gen/dnsgen.py:wf_ref is an independent oracle (search aid), not part of the proof",
+    technique="Coq proof (soundness and completeness of the parser model w.r.t. an inductive policy specification) + two-direction recogniser oracle")
+
 PENDING_REASON = "check not built yet in this round (model/theorems in progress; see DESIGN.md section 11 for the order of work)"
 
 
